@@ -185,6 +185,16 @@ package plat
 //     nbody ping-pongs its buffers the same way but its 1e-3 tolerance cannot
 //     see a position that is two steps old; stencil2d multiplies the halo by 0.
 //
+//  16. cdna3 binaries with buffers around a 4 GiB line of the process's virtual
+//     address space (C01 draws that position for gcn3 only): after
+//     AllocateMemory(ctx, 4 GiB - 2 pages) in the workload's own process,
+//     matrixmultiplication cdna3 x=32 y=4 z=32 in emulation on one GPU fails
+//     Verify (mismatch at [0, 0]: expected 9.192333, but get 0.000000); the same
+//     run without the earlier allocation, and the gcn3 binary with it, pass.
+//     Found by ./check C01 under batch seed 2 (run 873); minimised replay:
+//     /verif/findings/C01-cdna3-buffers-around-4gib-line-matrixmultiplication-seed2-run873.json
+//     (it reproduces with harness c01 as of /verif commit e9cca0d). Not root-caused.
+//
 // OTHER FINDINGS (no configuration excluded because of them)
 //   - shoc/fft: Verify compares the two halves of the HOST input with each
 //     other and never looks at the device result. An independent 512-point DFT
